@@ -81,6 +81,9 @@ func (c *ctx) junkUnselected(cf Cfg, in otp.OCRAInput) otp.OCRAInput {
 		case 2:
 			return c.randBytes(1 + c.rng.Intn(300))
 		}
+		if c.rng.Intn(5) == 0 {
+			return c.randBytes([]int{700, 1000, 1024, 1025, 2100}[c.rng.Intn(5)]) // unselected fields are not constrained at all
+		}
 		return c.randBytes(8)
 	}
 	if !cf.C {
@@ -179,6 +182,19 @@ func scenC05(c *ctx) {
 			continue
 		}
 		gen("parsed", sa, c.someKey(), c.admissibleInput(sa.su.Cfg, i))
+	}
+	// every length of the suite text 0..160 (it heads the message: a fixed-size message buffer is a thin slice here),
+	// with the longest message (all fields, 64-byte password hash) and the shortest
+	for n := 0; n <= 160; n++ {
+		if c.quick() && n%2 == 1 && n > 70 {
+			continue
+		}
+		raw := []byte(strings.Repeat("OCRA-1:X", 21)[:n])
+		big := c.handBuilt(31, 2, 8, raw)
+		big.P, big.PH = true, 3
+		gen(fmt.Sprintf("rawlen/big%d", n), cfgSuiteArg(big), c.someKey(), c.admissibleInput(big, 1))
+		small := c.handBuilt(2, 0, 6, raw)
+		gen(fmt.Sprintf("rawlen/small%d", n), cfgSuiteArg(small), c.someKey(), c.admissibleInput(small, 0))
 	}
 	// every admissible length of the two padded fields (a layout slip at ONE length is a thin slice)
 	for h := 0; h < 3; h++ {
